@@ -196,6 +196,8 @@ func (w *world) initStore(esc, shard int) (*fsstore.Store, error) {
 		sf = sharding.Shard_r122
 	case 2:
 		sf = sharding.Shard_r133
+	case 3:
+		sf = shardFlat
 	}
 	var err error
 	if esc == 0 {
@@ -232,7 +234,7 @@ func (S) RunTape(t *sim.Tape, st *sim.Stats, keepLog bool) *sim.Outcome {
 
 	// ---- per-run configuration (swarm) ----
 	esc := t.Choice(3, "cfg.esc")
-	shard := t.Choice(3, "cfg.shard")
+	shard := t.Choice(4, "cfg.shard")
 	d.SplitWrites = t.Bool("cfg.splitwrites")
 	d.NoReplaceRename = t.Pct(15, "cfg.rename_noreplace")
 	d.RandCollide = []int{0, 0, 25}[t.Choice(3, "cfg.randcollide")]
@@ -357,7 +359,7 @@ func (S) RunTape(t *sim.Tape, st *sim.Stats, keepLog bool) *sim.Outcome {
 	if initOK && predir && !d.Dead {
 		// a previous process left a shard directory behind: legal state
 		var shards []string
-		sf := []func(string, *[]string){sharding.Shard_r12, sharding.Shard_r122, sharding.Shard_r133}[shard]
+		sf := []func(string, *[]string){sharding.Shard_r12, sharding.Shard_r122, sharding.Shard_r133, shardFlat}[shard]
 		if esc == 0 {
 			sf = sharding.Shard_r12
 		}
@@ -803,3 +805,6 @@ func (w *world) opCtx() context.Context {
 	}
 	return &simCtx{w: w, done: make(chan struct{})}
 }
+
+// shardFlat is a user-defined sharding function: no shard directories at all.
+func shardFlat(key string, shards *[]string) { *shards = append(*shards, key) }
